@@ -33,7 +33,7 @@ package consensus
 //@   ensures mineTime >= pt && res1(r) != nil ==> result1 == res1(r)
 
 //@ func verifyMiner   pure
-//@   props C13
+//@   props C13 C02
 //@   requires header != nil && parent != nil && deputynode.wfManager(dm) && deputynode.cfgOK() && parent.Height < 4294967295
 //@   requires mineTimeout > 0 && mineTimeout <= 1<<32
 //@   let n = dm.GetDeputiesCount(parent.Height + 1)
